@@ -322,6 +322,7 @@ func runCheck(repo, verifDir, prop, tier, evidence string, timeout int, verbose 
 		"machine assumption: no object larger than 2^48 bytes; integers: exact wrap-around semantics in int mode, bit-vectors in bv mode",
 		"spec functions denote the same mathematical function in both arithmetic modes (only constant shifts/masks are used in int mode)",
 		"concurrency: sequentially consistent atomics and mutex happens-before; interference = havoc of monitor-protected fields under the declared guarantee/rely at every synchronisation point; goroutine bodies started with go are verified as functions of their own, not as part of the spawner",
+		"fields shared between goroutines outside a declared monitor or atomic are treated as owned by the executing goroutine (atomic.Pointer fields and locals whose address escapes are volatile)",
 		"range over a map: each iteration yields a present key not yielded before, the loop ends when all were yielded; the map is assumed not to be modified by the loop body",
 		"immutable field declarations are decided by a syntactic scan of the package's SSA (no unsafe/reflect writes)",
 		"front-end obligations (contract:resolves, site-reached, ghost-reached, wake-all, immutable) are decided by the generator, not by a solver",
